@@ -1111,3 +1111,8 @@ TABLE["C11"] += [
       (MW, "                instantiated_class.parent_class,\n                instantiated_class.ctors,", "                '' if str(instantiated_class.parent_class) in self.ignore_classes else instantiated_class.parent_class,\n                instantiated_class.ctors,")),
     B("grouping-by-consecutive-runs-groupby", {"H8"}, (MW, _GM_OLD, _GM_GROUPBY)),
 ]
+_FSN = (IP + "namespace.py", "        ns = find_sub_namespace(found_namespace, str_namespaces[1:])\n        if ns:\n            res += ns\n    return res\n",
+        "        ns = find_sub_namespace(found_namespace, str_namespaces[1:])\n        if ns:\n            return ns\n    return res\n")
+_FSN2 = (IP + "namespace.py", "        ns = find_sub_namespace(found_namespace, str_namespaces[1:])\n", "        ns = find_sub_namespace(found_namespace, str_namespaces[2:])\n")
+TABLE["C08"] += [B("namespace-path-lookup-stops-at-the-first-block", {"N2"}, _FSN), B("namespace-path-lookup-skips-a-component", {"N2"}, _FSN2)]
+TABLE["C07"] += [B("namespace-path-lookup-stops-at-the-first-block", {"V6"}, _FSN), B("namespace-path-lookup-skips-a-component", {"V6"}, _FSN2)]
